@@ -967,6 +967,12 @@ pub fn replay(payload: &Value) -> i32 {
 		k.copy_from_slice(&b);
 		k
 	});
+	if kind == "scan-json-form" {
+		// data = the JSON form as produced in the run, original = the needle
+		let hit = find_sub(&data, &orig);
+		println!("needle ({} bytes) found in the JSON form: {:?}", orig.len(), hit);
+		return if hit.is_some() { 1 } else { 0 };
+	}
 	if kind == "scan" {
 		// data = armored message, original = the needle
 		let bin = SlatepackArmor::decode(&data).unwrap_or_default();
@@ -1375,6 +1381,7 @@ pub fn run(_args: &[String]) -> i32 {
 	let mut control_found = 0u64;
 	let mut control_total = 0u64;
 	let mut scan_samples = vec![];
+	let mut json_forms = 0u64;
 	let plain_of = |si: usize, sender: bool| plain.iter().find(|p| p.si == si && p.sender == sender).unwrap();
 	for m in enc.iter() {
 		let c = &corpus[m.si];
@@ -1427,6 +1434,31 @@ pub fn run(_args: &[String]) -> i32 {
 			control_total += 1;
 			if find_sub(&pm.bin, &n.bytes).is_some() {
 				control_found += 1;
+			}
+		}
+		// third encoded form: the JSON form of the slatepack (what PathToSlatepack::put_tx writes when it is
+		// not asked for the binary form), built by the packer for the same sender and recipients
+		{
+			let rec: Vec<SlatepackAddress> = m.rset.iter().map(|r| address_of(&key_of(*r, 0, m.ridx))).collect();
+			let packer = Slatepacker::new(SlatepackerArgs { sender: if m.sender { Some(addr0[c.creator].clone()) } else { None }, recipients: rec, dec_key: None });
+			let js = match packer.create_slatepack(&c.slate).map_err(|e| format!("{:?}", e)).and_then(|sp| serde_json::to_string_pretty(&sp).map_err(|e| format!("{:?}", e))) {
+				Ok(js) => js,
+				Err(e) => return rep.finish(Some(format!("JSON form of an encrypted slatepack cannot be built: {}", e))),
+			};
+			json_forms += 1;
+			for n in needles.iter() {
+				if let Some(pos) = find_sub(js.as_bytes(), &n.bytes) {
+					total.cands.push(Cand {
+						key: format!("C10/cleartext-json-form/{}/{}", if n.what.starts_with("sender/") { "sender-address" } else { "slate-field" }, n.what),
+						what: format!("{}: {} occurs in clear at offset {} of the JSON form of the encrypted slatepack", m.label(&cases), n.what, pos),
+						data: js.as_bytes().to_vec(),
+						dec_key: None,
+						kind: "scan-json-form".to_owned(),
+						exp_sender: expected_sender(m),
+						exp_json: cases[m.si].json.clone(),
+						orig: n.bytes.clone(),
+					});
+				}
 			}
 		}
 		let hay: HashSet<&[u8]> = m.bin.windows(WINDOW).collect();
@@ -1715,7 +1747,7 @@ pub fn run(_args: &[String]) -> i32 {
 		if !seen_keys.insert(c.key.clone()) {
 			continue;
 		}
-		if c.kind == "scan" {
+		if c.kind == "scan" || c.kind == "scan-json-form" {
 			// deterministic by construction (a substring search over recorded bytes)
 			rep.add_finding(Finding { key: c.key.clone(), what: c.what.clone(), replay: cand_payload(c) });
 			continue;
@@ -1762,6 +1794,7 @@ pub fn run(_args: &[String]) -> i32 {
 	rep.cov("cleartext_scan", json!({
 		"messages": enc.len(),
 		"needle_searches": scan_needles,
+		"json_forms_scanned": json_forms,
 		"plaintext_windows_searched": scan_windows,
 		"window_bytes": WINDOW,
 		"low_entropy_values_not_searched": scan_skipped_low_entropy,
